@@ -313,6 +313,92 @@ fn digest_sweep(_ctx: &EnumCtx) -> EnumResult {
     res
 }
 
+/// A peer that does not know the cookie, but has watched the node's earlier handshakes: every handshake puts the
+/// node's own challenge on the wire (the accepting side sends it first; the dialling side sends it next to its
+/// answer). On a session the node dials, the peer issues as ITS challenge a value computed from what it has seen
+/// (the last value, the last + 1, + 2, + 3, - 1, the linear continuation, 0, 1), receives the node's digest of
+/// that value, and hands the very same digest back as its own proof. That only works if the node's fresh challenge
+/// equals the guess, i.e. if challenges can be computed from earlier ones. Every history of one to three observed
+/// handshakes (accepting / dialling side in every order) x every predictor; a success is re-tried once with a
+/// fresh history before it is reported (two lucky 32-bit guesses in a row: 2^-64).
+fn reflection_sweep(_ctx: &EnumCtx) -> EnumResult {
+    let mut res = EnumResult::default();
+    let real = COOKIE;
+    // what a cookie-less peer sees of the node's challenge on an accepting-side handshake
+    let observe_accepting = || -> Option<u32> {
+        let f = ServerFsm::init().next(msg(a::authentication_message::Msg::Name(name())), real);
+        let f = f.start_challenge(real);
+        f.challenge().map(|c| c.0)
+    };
+    // ... and on a dialling-side handshake (the peer sends any challenge and reads the node's own from the reply)
+    let observe_dialling = |x: u32| -> Option<(Vec<u8>, u32)> {
+        let f = ClientFsm::init().next(msg(a::authentication_message::Msg::ServerStatus(a::ServerStatus { status: 0 })), real);
+        let f = f.next(msg(a::authentication_message::Msg::ServerChallenge(a::Challenge { name: "srv@host".into(), flags: None, challenge: x, connection_string: "c".into() })), real);
+        f.challenge().map(|(reply, ours, _)| (reply, ours))
+    };
+    let attack = |sides: &[bool], predictor: usize| -> Option<bool> {
+        let mut seen: Vec<u32> = Vec::new();
+        for accepting in sides {
+            let c = if *accepting { observe_accepting()? } else { observe_dialling(7)?.1 };
+            seen.push(c);
+        }
+        let last = *seen.last()?;
+        let prev = if seen.len() >= 2 { seen[seen.len() - 2] } else { last };
+        let guess = match predictor {
+            0 => last,
+            1 => last.wrapping_add(1),
+            2 => last.wrapping_add(2),
+            3 => last.wrapping_add(3),
+            4 => last.wrapping_sub(1),
+            5 => last.wrapping_add(last.wrapping_sub(prev)),
+            6 => 0,
+            _ => 1,
+        };
+        let f = ClientFsm::init().next(msg(a::authentication_message::Msg::ServerStatus(a::ServerStatus { status: 0 })), real);
+        let f = f.next(msg(a::authentication_message::Msg::ServerChallenge(a::Challenge { name: "srv@host".into(), flags: None, challenge: guess, connection_string: "c".into() })), real);
+        let (reply, _ours, _) = f.challenge()?;
+        let f = f.next(msg(a::authentication_message::Msg::ServerAck(a::ChallengeAck { digest: reply })), real);
+        Some(f.is_ok())
+    };
+    let mut histories: Vec<Vec<bool>> = Vec::new();
+    for len in 1..=3usize {
+        for code in 0..(1usize << len) {
+            histories.push((0..len).map(|i| code >> i & 1 == 1).collect());
+        }
+    }
+    for h in &histories {
+        for predictor in 0..8usize {
+            res.evaluations += 1;
+            res.transitions += h.len() as u64 + 3;
+            match attack(h, predictor) {
+                None => res.violations.push((format!("the handshake did not reach the challenge exchange (history {h:?})"), json!({}))),
+                Some(false) => *res.outcomes.entry("rejected".to_string()).or_insert(0) += 1,
+                Some(true) => {
+                    if attack(h, predictor) == Some(true) {
+                        *res.outcomes.entry("authenticated".to_string()).or_insert(0) += 1;
+                        if res.violations.len() < 5 {
+                            res.violations.push((
+                                format!(
+                                    "a peer that does not know the cookie was authenticated on a session the node dialled: after watching {} earlier handshake(s) (accepting side: {h:?}) it predicted the node's next challenge (predictor {predictor}: {}) and handed the node's own digest back",
+                                    h.len(),
+                                    ["last", "last+1", "last+2", "last+3", "last-1", "linear continuation", "0", "1"][predictor]
+                                ),
+                                json!({"history_accepting_side": format!("{h:?}"), "predictor": predictor}),
+                            ));
+                        }
+                    } else {
+                        *res.outcomes.entry("rejected".to_string()).or_insert(0) += 1;
+                    }
+                }
+            }
+            res.distinct_nontrivial += 1;
+        }
+    }
+    res.exhaustive = true;
+    res.note = format!("{} observation histories (1-3 handshakes, accepting / dialling side) x 8 predictors", histories.len());
+    res
+}
+
 pub fn fsm_units(thorough: bool) -> Vec<Unit> {
     let depth = if thorough { 6 } else { 5 };
     let mut v = Vec::new();
@@ -323,6 +409,7 @@ pub fn fsm_units(thorough: bool) -> Vec<Unit> {
         v.push(Unit::enumerate(format!("fsm/client/knows={knows}"), 8, Arc::new(move |c: &EnumCtx| client_sweep(c, depth, knows, base))));
     }
     v.push(Unit::enumerate("digest/cookie-families".to_string(), 1, Arc::new(digest_sweep)));
+    v.push(Unit::enumerate("fsm/client/predicted-challenge-reflection".to_string(), 1, Arc::new(reflection_sweep)));
     for (name, real, wrong) in FAMILIES {
         let pair = (*real, *wrong);
         let d = depth - 1;
